@@ -601,35 +601,58 @@ def emit_obs_ei(ei):
 
 
 HEADER = """From Coq Require Import ZArith NArith String List Bool. Import ListNotations.
-From TP Require Import Base.PyVal Base.PyEq Errors.Template Errors.Render Errors.Parse Errors.TemplateOk Errors.Collect Check.C18chk.
+From TP Require Import Base.PyVal Base.PyEq Base.PyOps Errors.Template Errors.Render Errors.Parse Errors.TemplateOk Errors.Collect
+  Errors.Guard Errors.GuardSchema Gen.GuardProgs Check.C18chk.
 Local Open Scope string_scope.
 """
 
 
-def eval_stream(rep, name, ctype, fn_names, items, per=300):
-    """Evaluates boolean functions over emitted cases inside Coq; returns {fn: [indices]} or None."""
-    if not items:
-        return {f: [] for f in fn_names}
+def eval_streams(rep, specs, streams, per=300, extra=None):
+    """Evaluates the boolean functions of every stream over its emitted cases inside Coq, all shards of all
+    streams in one parallel batch.  specs: [(name, case type, [function names])].
+    Returns ({name: {fn: [indices]} | None}, [values of the `extra` commands] | None)."""
     shards = []
-    for s in range(0, len(items), per):
-        body = "Definition cases : list %s := %s.\n" % (ctype, E.lst(["\n " + i for i in items[s:s + per]]))
-        for f in fn_names:
-            body += "Eval vm_compute in (indices_where %s cases 0).\n" % f
-        shards.append(body)
+    owner = []
+    for name, ctype, fns in specs:
+        items = [x[0] for x in streams[name]]
+        for s0 in range(0, len(items), per):
+            body = "Definition cases : list %s := %s.\n" % (ctype, E.lst(["\n " + i for i in items[s0:s0 + per]]))
+            for f in fns:
+                body += "Eval vm_compute in (indices_where %s cases 0).\n" % f
+            shards.append(body)
+            owner.append((name, s0))
+    if extra:
+        shards.append("".join("Eval vm_compute in (%s).\n" % e for e in extra))
+        owner.append(("__extra__", 0))
     import time as _t
     _t0 = _t.time()
-    res = core.eval_cases(shards, "c18" + name, HEADER)
+    if os.environ.get("C18_KEEP"):
+        os.makedirs(os.environ["C18_KEEP"], exist_ok=True)
+        for i, (b, o) in enumerate(zip(shards, owner)):
+            with open(os.path.join(os.environ["C18_KEEP"], "keep_%s_%d.v" % (o[0].strip("_"), i)), "w") as fh:
+                fh.write(HEADER + "\n" + b)
+    res = core.eval_cases(shards, "c18all", HEADER) if shards else []
     if os.environ.get("C18_TIMING"):
-        print("[c18] stream %s: %d cases in %d shards, %.1fs" % (name, len(items), len(shards), _t.time() - _t0))
-    out = {f: [] for f in fn_names}
-    for si, (rc, so, se) in enumerate(res):
+        print("[c18] coq evaluation: %d shards, %.1fs" % (len(shards), _t.time() - _t0))
+    out = {name: {f: [] for f in fns} for name, _, fns in specs}
+    fns_of = {name: fns for name, _, fns in specs}
+    extra_vals = None
+    for (name, s0), (rc, so, se) in zip(owner, res):
         vals = core.parse_eval(so)
-        if rc != 0 or len(vals) != len(fn_names):
-            rep.broken("correspondence:%s/coq-eval" % name, "case shard %d failed to evaluate: %s" % (si, (so + se)[-1500:]))
-            return None
-        for f, v in zip(fn_names, vals):
-            out[f] += [si * per + i for i in core.parse_nat_list(v)]
-    return out
+        if name == "__extra__":
+            extra_vals = vals if rc == 0 and len(vals) == len(extra) else None
+            if extra_vals is None:
+                rep.broken("correspondence:extra/coq-eval", "evaluation failed: %s" % (so + se)[-1500:])
+            continue
+        if out[name] is None:
+            continue
+        if rc != 0 or len(vals) != len(fns_of[name]):
+            rep.broken("correspondence:%s/coq-eval" % name, "case shard at %d failed to evaluate: %s" % (s0, (so + se)[-1500:]))
+            out[name] = None
+            continue
+        for f, v in zip(fns_of[name], vals):
+            out[name][f] += [s0 + i for i in core.parse_nat_list(v)]
+    return out, extra_vals
 
 
 # ------------------------------------------------------------------ one argument set, all configurations
@@ -1036,7 +1059,7 @@ def run(rep, tier):
     ]
     ws_ok, pats_ok = regex_oracle_checks(rep)
     assert Structure.failing_fast()
-    streams = {"render": [], "construct": [], "deser": [], "parse": []}
+    streams = {"render": [], "construct": [], "deser": [], "parse": [], "guard": []}
     all_fails = []
     cases = []
     for i in range(ncases):
@@ -1064,6 +1087,7 @@ def run(rep, tier):
         print("[c18] random cases: %.1fs" % (_t.time() - _t0))
     # ---- the enumerated part of the input space: leaf kind x value class x position
     pts = L.points(tier, core.seed())
+    npts = 0
     for label, cast, kw, meta, base in pts:
         try:
             case = Case(cast, kw, dict(meta, __baseline__={k: G.unreify(v, {}) for k, v in base.items()}))
@@ -1071,8 +1095,13 @@ def run(rep, tier):
             rep.stat("lattice", "undeclarable:%s:%s" % (label.split("|")[0] + "|" + label.split("|")[2], type(ex).__name__))
             continue
         cases.append(case)
+        # every point is judged by the clauses; in the quick tier one point in three also feeds the
+        # correspondence streams (the same model functions see every random case and every third point)
+        npts += 1
+        sink = streams if (tier != "quick" or npts % 3 == core.seed() % 3) else \
+            {"render": streams["render"], "construct": [], "deser": [], "parse": []}
         try:
-            fails = evaluate_case(case, rep, streams)
+            fails = evaluate_case(case, rep, sink)
         finally:
             Structure.set_fail_fast(True)
         inv = bool(case.orc["a"]["ctor"] or case.orc["a"]["pre"] or case.orc["a"]["post"])
@@ -1091,14 +1120,57 @@ def run(rep, tier):
     assert Structure.failing_fast()
     rep.obligation("state:fail-fast-switch-restored", Structure.failing_fast(), "")
 
+    # ---- the validation chains: real field objects against the generated guard programs
+    from harness import c18guards
+    try:
+        streams["guard"] = c18guards.build(rep, rnd, tier)
+    finally:
+        Structure.set_fail_fast(True)
+    if os.environ.get("C18_TIMING"):
+        print("[c18] with %d guard cases: %.1fs" % (len(streams["guard"]), _t.time() - _t0))
+
     if model_ok:
         specs = [("render", "rcase", ["render_mismatch", "render_hyps"]),
                  ("parse", "pcase", ["parse_mismatch", "parse_unmodelled"]),
                  ("construct", "ccase", ["construct_mismatch"]),
-                 ("deser", "dcase", ["deser_mismatch"])]
+                 ("deser", "dcase", ["deser_mismatch"]),
+                 ("guard", "gcase", ["guard_mismatch", "guard_schema_bad", "guard_bare_under_hyps", "guard_hyps",
+                                     "guard_unmodelled"])]
+        results, extra = eval_streams(rep, specs, streams, extra=["obsolete_restrictions"])
+        if extra is not None:
+            obsolete = ["".join(chr(int(x)) for x in re.findall(r"\d+", grp))
+                        for grp in re.findall(r"\[([^\[\]]*)\]", extra[0][1:-1] if extra[0].startswith("[") else "")]
+            rep.obligation("guards:restricted-domains-still-needed", True,
+                           "every restricted kind of Errors/GuardSchema.v is still rejected by the analysis on all values"
+                           if not obsolete else "the chains of %s now pass the analysis on ALL values: their restriction "
+                           "(a known defect) is obsolete and the kind can move to kinds_all_values" % ", ".join(obsolete))
+        # a guard case on which model and code differ, or a nameless exception where the theorem's hypotheses
+        # hold, is re-run as an ordinary one-field argument set: the clauses give the concrete replay
+        gres = results.get("guard")
+        if gres:
+            flagged = sorted(set(gres["guard_mismatch"]) | set(gres["guard_bare_under_hyps"]) | set(gres["guard_schema_bad"]))
+            done = set()
+            for i in flagged[:40]:
+                info = streams["guard"][i][1]
+                if "cast" not in info:
+                    continue
+                sig = (json.dumps(info["cast"], sort_keys=True, default=str), repr(info["r"]))
+                if sig in done:
+                    continue
+                done.add(sig)
+                try:
+                    gcase = Case(info["cast"], [("a", info["r"])], {"__baseline__": {}})
+                    gf = evaluate_case(gcase, rep, {"render": [], "construct": [], "deser": [], "parse": []})
+                except Exception:  # noqa
+                    continue
+                finally:
+                    Structure.set_fail_fast(True)
+                for f in gf:
+                    key, text, mode, ff = f[:4]
+                    rep.finding(key, text, case_replay_obj(gcase, mode, ff, only=f[4] if len(f) > 4 else None))
         for name, ctype, fns in specs:
             items = streams[name]
-            res = eval_stream(rep, name, ctype, fns, [x[0] for x in items])
+            res = results.get(name)
             if res is None:
                 continue
             mism = res[fns[0]]
@@ -1108,25 +1180,39 @@ def run(rep, tier):
                 rep.cov["streams"]["correspondence:render"]["theorem_hypotheses_hold"] = len(res["render_hyps"])
             if name == "parse":
                 rep.cov["streams"]["correspondence:parse"]["outside_model_domain_skipped"] = len(res["parse_unmodelled"])
-            rep.obligation("correspondence:" + name, not mism, detail)
+            if name == "guard":
+                st = rep.cov["streams"]["correspondence:guard"]
+                st["theorem_hypotheses_hold"] = len(res["guard_hyps"])
+                st["outside_model_domain_skipped"] = len(res["guard_unmodelled"])
+                bad = res["guard_schema_bad"]
+                rep.obligation("correspondence:guard/field-objects-fit-schema", not bad,
+                               "%d cases, %d field objects outside the schema of Errors/GuardSchema.v" % (len(items), len(bad)))
+                bare = res["guard_bare_under_hyps"]
+                rep.obligation("correspondence:guard/no-nameless-exception-under-hypotheses", not bare,
+                               "%d cases satisfy the hypotheses of C18_rejection_is_templated, %d of them ended in an "
+                               "exception no raise statement produced" % (len(res["guard_hyps"]), len(bare)))
+                mism = sorted(set(mism) | set(bad) | set(bare))
+            rep.obligation("correspondence:" + name, not res[fns[0]], detail)
             if mism and os.environ.get("C18_DEBUG"):
                 for i in mism[:12]:
                     inf = items[i][1]
-                    cc = inf["case"]
-                    print("[c18] MISMATCH", name, {k: v for k, v in inf.items() if k != "case"})
+                    print("[c18] MISMATCH", name, {k: v for k, v in inf.items() if k not in ("case", "cast")})
                     print("      ", items[i][0][:1500])
             if mism:
                 explained = any(not v["no_input"] for v in rep.violations)
                 info = items[mism[0]][1]
-                c = info["case"]
                 if not explained:
-                    rep.broken("correspondence:" + name,
-                               "model (Errors/%s) and typedpy differ on %d of %d generated cases; no clause of C18 failed on "
-                               "any explored input. First: %s" % (
-                                   {"render": "Render.v + Gen/Templates.v", "parse": "Parse.v", "construct": "Collect.v",
-                                    "deser": "Collect.v"}[name], len(mism), len(items),
-                                   {k: v for k, v in info.items() if k != "case"}),
-                               case_replay_obj(c, info.get("mode", "ctor"), info.get("ff", True)))
+                    model = {"render": "Render.v + Gen/Templates.v", "parse": "Parse.v", "construct": "Collect.v",
+                             "deser": "Collect.v", "guard": "Guard.v + Gen/GuardProgs.v + GuardSchema.v"}[name]
+                    what = ("model (Errors/%s) and typedpy differ on %d of %d generated cases; no clause of C18 failed on "
+                            "any explored input. First: %s" % (model, len(mism), len(items),
+                                                               {k: v for k, v in info.items() if k not in ("case", "cast", "r")}))
+                    if name == "guard":
+                        rep.broken("correspondence:guard", what, {"guard_case": items[mism[0]][0][:3000]})
+                    else:
+                        c = info["case"]
+                        rep.broken("correspondence:" + name, what,
+                                   case_replay_obj(c, info.get("mode", "ctor"), info.get("ff", True)))
                 else:
                     rep.obligation("correspondence:%s:explained-by-violation" % name, True,
                                    "mismatching cases accompany a concrete violation reported above")
